@@ -13,35 +13,35 @@ NA = {
 
 
 META = {
- "C02": ("deterministic simulation: seeded partition schedule (sub-blocks x blocks x files), write/open/source faults and line-level interrupts with retry (half of them over the same stem), a near-twin predecessor configuration recording first in the same process, num_subblocks re-assigned between recordings, non-zero quantiser target means, numpy-integer parameters; oracle = RefGuppi decode vs RefPipeline driven by the antenna request log, plus same-seed partition twins",
+ "C02": ("deterministic simulation: seeded partition schedule (sub-blocks x blocks x files), write/open/source faults and line-level interrupts with retry (half of them over the same stem), a near-twin predecessor configuration recording first in the same process, num_subblocks re-assigned between recordings, non-zero quantiser target means, numpy-integer parameters; oracle = RefGuppi decode vs RefPipeline driven by the antenna request log, plus same-seed partition twins; a stated fraction of runs has hundreds of PFB windows per block",
          "every decoded sample of every recording compared with an independent reference (direct-definition PFB, quantiser model) over thousands of seeded configurations and partitions per run; sampling, not proof"),
- "C03": ("deterministic simulation: seeded operation histories on frames, their parents and sibling frames (get_waterfall/copy/pickle/slice/dedrift/rebind/retime/save/load, saves over existing files, saves that are rejected or interrupted at a traced line, frames from time-selected Waterfalls, two frames on one Waterfall object) under a jumping simulated clock; oracle = loaded frame vs saved frame, blimpy as independent reader, helper functions given paths or Waterfall objects (which must stay unchanged)",
+ "C03": ("deterministic simulation: seeded operation histories on frames, their parents and sibling frames (get_waterfall/copy/pickle/slice/dedrift/rebind/retime/save/load, saves over existing files, saves that are rejected or interrupted at a traced line, frames from time-selected Waterfalls, two frames on one Waterfall object) under a jumping simulated clock; oracle = loaded frame vs saved frame, blimpy as independent reader, helper functions given paths or Waterfall objects (which must stay unchanged); a stated fraction of runs uses survey-sized frames (over 2**20 samples, shapes not powers of two)",
          "round trips through real blimpy/h5py I/O for every generated history; exploration of the history space, not exhaustive"),
- "C04": ("deterministic simulation: seeded header dictionaries, recordings with injected write/open faults and retries, recordings over earlier recordings, re-passed caller dictionaries, start_chan re-assigned between recordings, headers of up to 700 cards, simulated directory-listing permutations; oracle = RefGuppi parse with no residue, blimpy GuppiRaw and setigen readers must agree; header length mod 32 x DIRECTIO enumerated",
+ "C04": ("deterministic simulation: seeded header dictionaries, recordings with injected write/open faults and retries, recordings over earlier recordings, re-passed caller dictionaries, start_chan re-assigned between recordings, headers of up to 700 cards, simulated directory-listing permutations; oracle = RefGuppi parse with no residue, blimpy GuppiRaw and setigen readers must agree; header length mod 32 x DIRECTIO enumerated; a stated fraction of runs records blocks of more than 2**20 samples with non-power-of-two channel counts",
          "enumerates all 32 header-length residues x 3 DIRECTIO classes and all listing permutations of small recordings on every run, samples the rest"),
- "C06": ("deterministic simulation: seeded sequences of injections over several live frames (incl. float32 loaded from file), injections that die in a user callback, frames taking part in cadence injections in between (also twice in one cadence), unseeded frames and signal functions, bounds as quantities; argument arrays must stay unchanged; frame-state invariant over all live frames after every operation, each returned signal also computed separately on an empty twin",
+ "C06": ("deterministic simulation: seeded sequences of injections over several live frames (incl. float32 loaded from file), injections that die in a user callback, frames taking part in cadence injections in between (also twice in one cadence), unseeded frames and signal functions, bounds as quantities; argument arrays must stay unchanged; frame-state invariant over all live frames after every operation, each returned signal also computed separately on an empty twin; a stated fraction of runs injects into a survey-sized frame through a wide bounding range with the signal at its upper edge",
          "bitwise additivity/confinement/state-preservation invariants after every op; exploration"),
  "C08": ("deterministic simulation: seeded chunking schedules, cache on/off calls, rejected calls, resets, dtype switches and interleavings of several filterbank objects (incl. same coefficient count in another split), rare very long and ragged single calls, branch counts with large prime factors, objects copied or pickled mid-stream; oracle = direct FIR+DFT definition on the consumed prefix",
          "every returned spectrum compared with the definition at 1e-10 of the attainable magnitude; exploration of chunk compositions"),
- "C09": ("deterministic simulation: seeded call histories per quantiser object (incl. rejected calls, real-dtype input to complex quantisers, numpy-integer parameters, copies/pickles between calls) against refresh periods; returned arrays are held and re-checked later; oracle = step-by-step reference quantiser with a rounding-tie band",
+ "C09": ("deterministic simulation: seeded call histories per quantiser object (incl. rejected calls, real-dtype input to complex quantisers, numpy-integer parameters, copies/pickles between calls) against refresh periods; returned arrays are held and re-checked later; oracle = step-by-step reference quantiser with a rounding-tie band; bursts of hundreds of calls on one object",
          "every output integer compared with the reference; exploration of call histories"),
- "C10": ("deterministic simulation: seeded request partitions interleaved with set_time/add_time/reset_start/update_noise, requests that fail in a user source followed by the public recovery, sources serving views of their own arrays, chirp parameters as quantities, the BackgroundDataStream subclass, a predecessor stream of another sample rate; oracles = exact-time reference stream and chunked-vs-one-shot same-seed twin",
+ "C10": ("deterministic simulation: seeded request partitions interleaved with set_time/add_time/reset_start/update_noise, requests that fail in a user source followed by the public recovery, sources serving views of their own arrays, chirp parameters as quantities, the BackgroundDataStream subclass, a predecessor stream of another sample rate; oracles = exact-time reference stream and chunked-vs-one-shot same-seed twin; bursts of hundreds of requests on one object, optionally behind an update_noise",
          "times bitwise in dyadic configurations, seeded noise bitwise, chirps within a derived bound; exploration"),
- "C11": ("deterministic simulation: seeded histories of noise additions (incl. degenerate parameters and rejected calls)/zero_data/injections/copies on two frames of different resolution, observation of the estimates as a scheduled op, returned arrays held and checked for aliasing, with a bookkeeping model; distributional clauses at analytically derived 7-sigma bands; stream quadrature clause",
+ "C11": ("deterministic simulation: seeded histories of noise additions (incl. degenerate parameters and rejected calls)/zero_data/injections/copies on two frames of different resolution, observation of the estimates as a scheduled op, returned arrays held and checked for aliasing, with a bookkeeping model; distributional clauses at analytically derived 7-sigma bands; stream quadrature clause; survey-sized frames (over 2**20 pixels) in a stated fraction of runs",
          "bookkeeping decided op by op; moment tests have stated power only (k off by 4 detected for k <= 40 at N >= 16384)"),
- "C12": ("deterministic simulation, differential between executions: same seeded program in forked sub-children under different clock/entropy/listing/scratch seams; with vs without a prefix history in the same process; reused backend (whose first recording may have failed; synthetic or from_data) vs fresh backend on a replayed request log; reused vs fresh caller dictionary; batches re-executed in a fresh interpreter under another PYTHONHASHSEED; special seed values (0, 2**31, 2**32-1); copy/pickle isolation invariant incl. consolidated frames",
+ "C12": ("deterministic simulation, differential between executions: same seeded program in forked sub-children under different clock/entropy/listing/scratch seams; with vs without a prefix history in the same process; reused backend (whose first recording may have failed; synthetic or from_data) vs fresh backend on a replayed request log; reused vs fresh caller dictionary; batches re-executed in a fresh interpreter under another PYTHONHASHSEED; special seed values (0, 2**31, 2**32-1); copy/pickle isolation invariant incl. consolidated frames; seeded channelised-noise estimates on user-sized and production-sized filterbanks (over 2**24 samples)",
          "event-by-event comparison of all observables between executions; exploration of programs; the seam or prefix op responsible is identified by re-running with one varied at a time"),
- "C14": ("deterministic simulation: inputs written by setigen or by RefGuppi (possibly replacing another recording of the same byte size the library has already read), listing permutations while building, injected faults with retry on the same backend, num_subblocks re-assigned between injections, streams silent for whole sub-blocks; oracle = RefGuppi decode of every block read, framing equality, and RefQuant(input + RefQuant0(RefPFB(synthetic))) with deviations snapshotted before the recording",
+ "C14": ("deterministic simulation: inputs written by setigen or by RefGuppi (possibly replacing another recording of the same byte size the library has already read), listing permutations while building, injected faults with retry on the same backend, num_subblocks re-assigned between injections, streams silent for whole sub-blocks; oracle = RefGuppi decode of every block read, framing equality, and RefQuant(input + RefQuant0(RefPFB(synthetic))) with deviations snapshotted before the recording; about one run in a hundred (one in twenty in the thorough tier) has production-sized loud input blocks",
          "every sample of every output block compared with the reference unless its inner quantisation sits on a rounding boundary; exploration"),
- "C15": ("deterministic simulation: seeded request partitions interleaved with set_time/add_time/reset_start, rejected (too small) requests, mid-observation update_noise, late background configuration, complex voltages and a caller re-using its delays array, on arrays with seeded delay vectors; oracle = own[k] + background[k + max_delay - delay_i] from same-seed reference streams",
+ "C15": ("deterministic simulation: seeded request partitions interleaved with set_time/add_time/reset_start, rejected (too small) requests, mid-observation update_noise, late background configuration, complex voltages and a caller re-using its delays array, on arrays with seeded delay vectors; oracle = own[k] + background[k + max_delay - delay_i] from same-seed reference streams; one very long request (up to 1.6 million samples) followed by ordinary ones in a stated fraction of runs",
          "every sample compared (bitwise for noise-only streams); exploration"),
- "C16": ("deterministic simulation with enumerated fault points: per generated scenario every invocation index of every user callable raises once and every line event inside the per-frame injection is interrupted once (sys.settrace); scenarios include out-of-order selections, frames with their own time origin, options by position, cadences laid out after construction; oracle = shifted-callable twin, time axes restored, later frames untouched",
+ "C16": ("deterministic simulation with enumerated fault points: per generated scenario every invocation index of every user callable raises once and every line event inside the per-frame injection is interrupted once (sys.settrace); scenarios include out-of-order selections, frames with their own time origin, options by position, cadences laid out after construction; oracle = shifted-callable twin, time axes restored, later frames untouched; cadences of 33-70 frames in a stated fraction of runs",
          "fault points are enumerated completely per scenario (no sub-sampling observed below 1500 line events); scenarios themselves are sampled"),
- "C17": ("deterministic simulation: seeded derive histories (slice incl. bounds counted from the end/dedrift incl. exact half-channel ties and consolidated parents/integrate, derived-of-derived, loaded float32 and Waterfall-carrying parents) under a jumping simulated clock; oracle = the statement's formulas on the parent, mutation isolation both ways",
+ "C17": ("deterministic simulation: seeded derive histories (slice incl. bounds counted from the end/dedrift incl. exact half-channel ties and consolidated parents/integrate, derived-of-derived, loaded float32 and Waterfall-carrying parents) under a jumping simulated clock; oracle = the statement's formulas on the parent, mutation isolation both ways; a de-Doppler search of 70-200 distinct trial rates between two uses of the same rate",
          "each derive op checked as it happens; the arithmetic itself is pure (stated caveat), the clock- and history-dependent clauses are what simulation adds"),
- "C18": ("deterministic simulation, model-based: seeded list-operation histories over compatible/incompatible/non-frame objects, constructor keywords, derived cadences that are mutated while the source is re-checked, selectors that must stay unchanged; oracle = Python list by identity plus label bookkeeping after every op; rejected operations are the faults",
+ "C18": ("deterministic simulation, model-based: seeded list-operation histories over compatible/incompatible/non-frame objects, constructor keywords, derived cadences that are mutated while the source is re-checked, selectors that must stay unchanged; oracle = Python list by identity plus label bookkeeping after every op; rejected operations are the faults; whole sessions of 32-70 frames handed over in one list",
          "identity comparison with the reference list after every op; exploration of histories up to 18 (quick) / 30 (thorough) ops"),
- "C20": ("deterministic simulation: conservation over the antenna request log (a seam the code already has) for recordings by block count or duration on synthetic and from_data backends (requests below, at and beyond the input), num_subblocks re-assigned between recordings, helper results held across calls, with injected faults and retries; helper functions cross-checked on the drawn configurations",
+ "C20": ("deterministic simulation: conservation over the antenna request log (a seam the code already has) for recordings by block count or duration on synthetic and from_data backends (requests below, at and beyond the input), num_subblocks re-assigned between recordings, helper results held across calls, with injected faults and retries; helper functions cross-checked on the drawn configurations; about one run in a hundred (one in twenty in the thorough tier) has sub-blocks of more than 2**22 real samples",
          "exact integer and 2-ulp ratio checks per recording; exploration; the pure helper functions are only reached as cross-checks (scope stated)"),
 }
 
